@@ -306,6 +306,15 @@ func init() {
 		if p.sleepHook != nil {
 			p.sleepHook()
 		}
+		if p.sleepBlocks && len(p.threads) > 1 {
+			// the sleeper stays parked until the harness calls vapi.WakeSleepers()
+			me := p.cur
+			me.sleeping = true
+			for me.sleeping {
+				p.block(sleepTok, "time.Sleep")
+			}
+			return nil
+		}
 		p.schedPoint("Sleep")
 		return nil
 	}
